@@ -675,7 +675,14 @@ class SetGen(object):
             mod = self.new_module()
             if rng.random() < p.get('p_tiny', 0.04):
                 # a module holding exactly one declaration (lists of one: exports, imports)
-                rng.choice([self.gen_node, self.gen_scalar])(mod)
+                if (p['syntax'] == 'rich' or 'types' in self.f) and rng.random() < 0.5:
+                    # nothing but type assignments over ASN.1 types: a module without an IMPORTS clause
+                    from vlib import gensyn
+                    for _ in range(rng.randint(1, 2)):
+                        gensyn.gen_type(self, mod, plain=True)
+                    self.stats['modules_without_imports'] = self.stats.get('modules_without_imports', 0) + 1
+                else:
+                    rng.choice([self.gen_node, self.gen_scalar])(mod)
                 for d in mod.decls:
                     d.module_name = mod.name
                 self.finish_module(mod)
